@@ -293,6 +293,9 @@ def check(run):
     _arity(run, prog)
     classes = explainer_classes(prog)
     run.need(len(classes) >= 4, f"only {len(classes)} explainers discovered")
+    # any callable loss is accepted by the constructors (they all go through validate_loss_function)
+    from .c06 import depends_on
+    depends_on(run, "C13", {"AGREE"}, only=lambda rule, inst: inst.startswith("dispatch"))
     n_loss = 0
     for cls in classes:
         defaults_resolution(run, prog, cls, "DEFAULTS", cls.name)
